@@ -87,7 +87,7 @@ TEXTS = {
   technique='Lean 4 proof + differential correspondence',
  ),
  'C17': dict(
-  text='Proved in Lean: row_roundtrip (decode(encode row) = row with negatives clamped, for cells < 2^32; dropped trailing zeros restored). Sparse-row and CSR models are compared with the real Serialize/Deserialize on every run. couples_decode_encode (the couples message: file and people matrices, index tables). Devs message: round trip checked Go-side.',
+  text='Proved in Lean: row_roundtrip (decode(encode row) = row with negatives clamped, for cells < 2^32; dropped trailing zeros restored). Sparse-row and CSR models are compared with the real Serialize/Deserialize on every run. couples_decode_encode (the couples message: file and people matrices, index tables). devs_decode_encode (the developers message: ticks, developers with the unmatched author written as -1, commits, line and per-language statistics, under the 32-bit width of the format; the wrap-around beyond it is modelled and compared too).',
   note=COMMON_NOTE + 'gogo/protobuf wire encoding is assumed to be the identity on messages.',
   technique='Lean 4 proof + differential correspondence',
  ),
